@@ -377,6 +377,9 @@ def main():
     # ---- evidence -------------------------------------------------------------
     evals = len(results)
     nontriv_hashes = set(r[0] for r in results.values() if r[4])
+    # distinct = distinct ABSTRACT runs (operation / fault kinds in order, where they landed, no numeric values), as
+    # collected by the workers; a worker that died takes its set with it, so the count is conservative
+    distinct_shapes = len(states.get("shape", ()))
     sample_idx = [i for i in sorted(results) if results[i][4]][:3] or sorted(results)[:3]
     samples = []
     for i in sample_idx:
@@ -394,14 +397,15 @@ def main():
         try: os.unlink(p)
         except OSError: pass
     rule = {
-        "C15": "one run = one seeded history (10-60 operations on a pool of up to 8 live matvec objects, each run with its own subset and weighting of operation kinds and its own heap fill pattern); a run is non-trivial when it executed at least 3 operations; distinct = distinct event-log hash (the log holds, per step, the operation and a hash of every live object's dimensions and element bits)",
-        "C04": "one run = one seeded history of queries against one to three live solver / Adj / LocalNetwork objects, scheduled step by step among 2-4 client tasks, every answer compared with a fresh object; non-trivial when at least one history-dependent path was taken (a second query on a used object, a cache hit/miss outside the envelope, an invalidation, a reset, a min_x change or an exception survived); distinct = distinct event-log hash",
-        "C11": "indices below the enumerated count are the complete single-fault sweeps (end of stream at every byte, two-chunk split at every byte) of the swept corpus documents; the rest are seeded runs (document class, option vector, chunk plan, up to 6 transport faults or mutations); non-trivial when at least one fault fired or the delivery was split into more than one chunk; distinct = distinct event-log hash",
-        "C13": "one run = one history of up to four emulated gama-local processes (adjust+export, then re-read the exported file through a seeded chunk plan, three times); non-trivial when at least two rounds completed; distinct = distinct event-log hash",
+        "C15": "one run = one seeded history (10-60 operations on a pool of up to 8 live matvec objects, each run with its own subset and weighting of operation kinds and its own heap fill pattern); a run is non-trivial when it executed at least 3 operations; distinct = distinct abstract history (sequence of operation kinds with the type and size class of the object they address, exceptions marked; no element values)",
+        "C04": "one run = one seeded history of queries against one to three live solver / Adj / LocalNetwork objects, scheduled step by step among 2-4 client tasks, every answer compared with a fresh object; non-trivial when at least one history-dependent path was taken (a second query on a used object, a cache hit/miss outside the envelope, an invalidation, a reset, a min_x change or an exception survived); distinct = distinct abstract history (per step: class or algorithm, kind of query or change, regular/singular, value or exception; no indices, no numbers)",
+        "C11": "indices below the enumerated count are the complete single-fault sweeps (end of stream at every byte, two-chunk split at every byte) of the swept corpus documents; the rest are seeded runs (document class, option vector, chunk plan, up to 6 transport faults or mutations); non-trivial when at least one fault fired or the delivery was split into more than one chunk; distinct = distinct abstract run (consumer, document, and for every fault its kind and the element and lexical context it landed in; no byte offsets)",
+        "C13": "one run = one history of up to four emulated gama-local processes (adjust+export, then re-read the exported file through a seeded chunk plan, three times); non-trivial when at least two rounds completed; distinct = distinct (network, algorithm, sequence of workload edit kinds)",
     }[prop]
     cov = dict(
         evaluations=evals,
-        distinct_nontrivial=len(nontriv_hashes),
+        distinct_nontrivial=distinct_shapes if distinct_shapes else len(nontriv_hashes),
+        distinct_log_hashes_nontrivial=len(nontriv_hashes),
         rule=rule,
         samples=samples,
         exhaustive=False,
